@@ -316,6 +316,21 @@ def graphFromFiles {α : Type} (ef : CsvFile (Edge α)) (vf : CsvFile (Vertex α
             else if endpointsWithin es vs.length = false then .error .dataset
             else .ok (buildGraph es vs nV)
 
+/-- `read_utils::read_raw_file` (and `from_csv` for a table with a header): a file that cannot be read
+to its end, or a line that does not decode, fails the whole read; otherwise the rows in file order -/
+def readTable {ρ : Type} (readable : Bool) (rows : List (Row ρ)) : Except LoadErr (List ρ) :=
+  if readable = false then .error .io
+  else
+    match decodeRows rows with
+    | .error _ => .error .io
+    | .ok l => .ok l
+
+/-- how often the row callback ran: once per row decoded, up to the first row that does not decode -/
+def callbackCount {ρ : Type} : List (Row ρ) → Nat
+  | [] => 0
+  | .bad :: _ => 0
+  | .ok _ :: r => callbackCount r + 1
+
 /-- a per-edge table (speeds, grades, headings, road classes): row `i` of the file belongs to edge
 `i` (`read_raw_file` enumerates lines from zero; `from_csv` keeps row order) -/
 def tableRow {β : Type} (table : List β) (edgeId : Nat) : Option β := table[edgeId]?
